@@ -66,6 +66,10 @@ pub struct Case {
     pub statuses: Vec<u8>,
     pub max_controls: Option<u8>,
     pub ops: Vec<Op>,
+    /// unsolicited reporting is on and the start-up NULL response is never confirmed: the session spends (nearly) all its
+    /// time in the unsolicited confirm wait, where requests are handled by another piece of code than in the idle state
+    #[serde(default)]
+    pub unsol_wait: bool,
 }
 
 fn encode_headers(hs: &[CtlHeader]) -> Vec<u8> {
@@ -208,8 +212,9 @@ impl Prop for Sbo {
             prop_oneof![3 => Just(vec![0u8]), 1 => proptest::collection::vec(prop_oneof![4 => Just(0u8), 1 => 1u8..20], 1..6)],
             prop_oneof![4 => Just(None), 1 => (1u8..6).prop_map(Some)],
             proptest::collection::vec(op, 2..n),
+            prop_oneof![2 => Just(false), 1 => Just(true)],
         )
-            .prop_map(|(statuses, max_controls, ops)| Case { statuses, max_controls, ops })
+            .prop_map(|(statuses, max_controls, ops, unsol_wait)| Case { statuses, max_controls, ops, unsol_wait })
             .boxed()
     }
     fn run(case: &Case) -> CaseOut {
@@ -225,6 +230,10 @@ async fn run_case(case: &Case) -> CaseOut {
     cfg.confirm_timeout_ms = 100;
     cfg.max_controls = case.max_controls.map(|x| x as u16);
     cfg.event_buffer = [0; 8];
+    if case.unsol_wait {
+        cfg.unsolicited = true;
+        out.label("in_unsolicited_confirm_wait");
+    }
     let mut beh = AppBehaviour::default();
     beh.control_status = case.statuses.clone();
     let mut rig = OutRig::start(cfg, beh).await;
@@ -238,6 +247,8 @@ async fn run_case(case: &Case) -> CaseOut {
     let mut last_fragment: Option<Vec<u8>> = None;
     // control headers of `last_fragment` when it is a SELECT of control objects
     let mut last_fragment_select: Option<Vec<CtlHeader>> = None;
+    // a READ was sent into the unsolicited confirm wait and no other request since
+    let mut read_put_aside: Option<Option<Vec<u8>>> = None;
 
     macro_rules! disarm {
         ($why:expr) => {
@@ -257,6 +268,10 @@ async fn run_case(case: &Case) -> CaseOut {
         }
         let _ = rig.shared.take_log();
         let _ = rig.take_tx();
+        // the request before a READ that was put aside: still "the request processed last" as long as the wait goes on,
+        // no longer once the READ has been answered - not known here
+        let behind_deferred_read =
+            case.unsol_wait && read_put_aside.as_ref() == Some(&last_fragment);
         match op {
             Op::Select(hs, sm) => {
                 let s = match sm {
@@ -474,7 +489,9 @@ async fn run_case(case: &Case) -> CaseOut {
                             .map(|o| *o.data.last().unwrap_or(&0xFF))
                     })
                     .collect();
-                if is_repeat_of_last {
+                if is_repeat_of_last && behind_deferred_read {
+                    out.label("repeat_or_not_behind_a_deferred_read");
+                } else if is_repeat_of_last {
                     // a byte-identical repeat of the previous request is C05's business: it must not execute
                     if !executed.is_empty() {
                         out.fail(Fail::new(
@@ -553,7 +570,15 @@ async fn run_case(case: &Case) -> CaseOut {
                 let frag = Fragment::request(seq, func::READ, ra::h_all(60, 1)).encode();
                 rig.send_fragment(&frag);
                 rig.settle().await;
-                last_fragment = Some(frag);
+                // (a READ received during the unsolicited confirm wait is put aside, not processed: the request
+                // "processed last", whose byte-identical repeat is echoed, is still the one before it)
+                if !case.unsol_wait {
+                    last_fragment = Some(frag);
+                } else {
+                    // ... until the wait ends and the READ is answered after all: whether a repeat that follows is still a
+                    // repeat depends on that
+                    read_put_aside = Some(last_fragment.clone());
+                }
                 disarm!("intervening");
             }
             Op::Write => {
@@ -656,6 +681,7 @@ async fn run_case(case: &Case) -> CaseOut {
                     let log = rig.shared.take_log();
                     if f.len() >= 2
                         && f[1] != func::READ
+                        && !behind_deferred_read
                         && log.iter().any(|(_, cb)| matches!(cb, Cb::Operate(..)))
                     {
                         // repeated OPERATE / DIRECT_OPERATE must not actuate again (also C05)
